@@ -88,7 +88,7 @@ fn ntt_internal<F: NttFriendlyFieldElement>(
             *outp_val = if j < inp.len() { inp[j] } else { F::zero() };
         }
     } else {
-        outp[0] = inp[0];
+        outp[0] = inp.first().copied().unwrap_or_else(F::zero);
     }
 
     let mut w: F;
